@@ -1928,6 +1928,7 @@ func (db *DatabaseCollectionWithUser) getResyncedDocument(ctx context.Context, d
 			base.WarnfCtx(ctx, "Error calling sync() on doc %q: %v", base.UD(docid), err)
 			access = nil
 			channels = nil
+			roles = nil
 		}
 		rev.Channels = channels
 
